@@ -53,6 +53,8 @@ pub fn gen(seed: u64, n: usize, out: &mut String) {
             inv.sort();
             for j in &inv { let pos = (j * bs) * ch + r.below(ch as u64) as usize; if pos < s.len() { s[pos] = 1 << (bps + 2); } }
         }
+        // 1 case in 24 (2 channels): the source ends in the MIDDLE of an inter-channel sample (one interleaved value is missing)
+        if i % 24 == 11 && ch == 2 && s.len() > 2 { s.pop(); }
         let invs = if inv.is_empty() { "-".to_string() } else { inv.iter().map(|x| x.to_string()).collect::<Vec<_>>().join(",") };
         writeln!(out, "PAR q{} {} {} {} {} {} {} {} {} {} {}", i, w, pseed, readfail, invs, c.encode(), *r.pick(&[8000usize, 44100]), ch, bps, bs, sig::fmt_samples(&s)).unwrap();
     }
